@@ -314,7 +314,8 @@ class Check(PropertyCheck):
                 [0xFB05, 0xFB06, 0x1E9E, 0xDF, 0x149, 0x212A, 0xFEFF, 0x180E, 0x200B]
         else:
             cps = list(range(0, 0x110000))
-        cps = [c for c in cps if not 0xD800 <= c <= 0xDFFF] + [0xD800, 0xDFFF]
+        # lone surrogates are ordinary code points for str; kept apart so that JSON does not pair them
+        cps = [0xDFFF] + [c for c in cps if not 0xD800 <= c <= 0xDFFF] + [0xD800]
         self.stats['table_code_points'] = len(cps)
         chunks = [cps[i:i + 20000] for i in range(0, len(cps), 20000)]
         texts = [''.join(chr(c) for c in ch) for ch in chunks]
@@ -388,7 +389,7 @@ class Check(PropertyCheck):
                 o = [0, int(unpack(i[1], len(names))[names.index(name)])]
                 self.add(out, Violation('oracle', qn_oracle(p, name, o) or '', case={'kind': 'qnmatch', 'pattern': p, 'name': name},
                                         expected=int(not o[1]), observed=o))
-        self.stats['distinct_nontrivial'] += nt
+        self.count('distinct_nontrivial', nt)
         for p in ['a*', '[!a].?', '*.[ab]']:
             self.sample({'pattern': p, 'names': 'all %d names of length <= %d over %r' % (len(names), NAME_MAXLEN, NAME_ALPHA)})
         return out
@@ -453,7 +454,7 @@ class Check(PropertyCheck):
             o = qn_oracle(p, n, i)
             if o:
                 self.add(out, Violation('oracle', o, case={'kind': 'qnmatch', 'pattern': p, 'name': n}, observed=i))
-        self.stats['distinct_nontrivial'] += nt
+        self.count('distinct_nontrivial', nt)
         for p, n in pairs[:2] + pairs[len(pairs) // 2:len(pairs) // 2 + 1]:
             self.sample({'pattern': p, 'name': n})
         return out
@@ -604,7 +605,7 @@ class Check(PropertyCheck):
                     self.add(out, pv)
                 if any(p == full or (not glob_inverted(glob_lex(p)) and glob_match(glob_lex(p), full)) for _, p in c['rules']):
                     nt += 1
-        self.stats['distinct_nontrivial'] += nt
+        self.count('distinct_nontrivial', nt)
         for c in cases[700:702] + cases[-20:-19]:
             self.sample({'rules': c['rules'], 'queries': c['queries']})
         return out
